@@ -36,4 +36,4 @@ def canaries(tier):
 
 def native_replay(ob):
     from props.base import run_native
-    return run_native('c03')
+    return run_native('c03', timeout=600, hang_is_failure=True)
